@@ -113,8 +113,8 @@ func FromConst(c ast.Constant) (Val, error) {
 		s, err := c.StringValue()
 		return StrV(s), err
 	case ast.BytesType:
-		s, err := c.StringValue()
-		return Val{K: VBytes, S: s}, err
+		// there is no accessor for byte strings; the data is the Symbol field
+		return Val{K: VBytes, S: c.Symbol}, nil
 	case ast.TimeType:
 		n, err := c.TimeValue()
 		return Val{K: VTime, N: n}, err
